@@ -21,17 +21,20 @@
 (* of Engine.Run; it makes the run `Done`, which arms Pool's end-of-run    *)
 (* invariants.                                                             *)
 (***************************************************************************)
-EXTENDS Pool, ProfileMath, Json, IOUtils
+EXTENDS Pool, StartupMath, Json, IOUtils
 
 VARIABLES l,        \* next line of the trace
           tokT,     \* instants of the startup tokens drawn so far (ns since the run's base, BigNat)
           tokR,     \* the same, relative to the startup schedule's start (explicit start only)
-          sparts,   \* the startup profile as a succession of simple ProfileMath parts
+          sparts,   \* the startup profile as a succession of simple ProfileMath parts (StartupMath!DescParts
+                    \* of the logged CONFIGURATION: the number and the instants of the startup tokens are the
+                    \* specification's, never the implementation's own account of itself)
+          nlo,      \* fewest startup tokens the configured profile may hand out (N = Len(cfg.startup) is the most)
           explicit, \* the startup schedule's start instant is known
           sidOf,    \* which schedule object each instance uses (-1 = not yet seen)
           bad       \* violated predicates that are not Pool invariants
 
-tvars == <<l, tokT, tokR, sparts, explicit, sidOf, bad>>
+tvars == <<l, tokT, tokR, sparts, nlo, explicit, sidOf, bad>>
 
 Trace == ndJsonDeserialize(IOEnv.VERIF_TRACE)
 Sd    == atoi(IOEnv.VERIF_SEED)
@@ -41,15 +44,15 @@ IsInst == I \in Inst
 
 Flag(cond, name) == IF cond THEN {} ELSE {name}
 
-TInit == /\ l = 1 /\ tokT = <<>> /\ tokR = <<>> /\ sparts = <<>> /\ explicit = FALSE
+TInit == /\ l = 1 /\ tokT = <<>> /\ tokR = <<>> /\ sparts = <<>> /\ nlo = 0 /\ explicit = FALSE
          /\ sidOf = [i \in Inst |-> -1] /\ bad = {}
          /\ InitFor([startup |-> <<>>, t |-> 0, tmin |-> 0, a |-> 0, per |-> FALSE, discard |-> FALSE])
 
 \* a new run: Pool's Init for the logged configuration
 T_Conf ==
   /\ Ev.ev = "conf"
-  /\ Ev.n <= MaxInst
-  /\ cfg' = [startup |-> [k \in 1..Ev.n |-> 0], t |-> Ev.t, tmin |-> Ev.tmin, a |-> Ev.a, per |-> Ev.per, discard |-> Ev.discard]
+  /\ CountHi(Ev.sdesc) <= MaxInst
+  /\ cfg' = [startup |-> [k \in 1..CountHi(Ev.sdesc) |-> 0], t |-> Ev.t, tmin |-> Ev.tmin, a |-> Ev.a, per |-> Ev.per, discard |-> Ev.discard]
   /\ now' = 0
   /\ given' = 0 /\ rel' = <<>> /\ prov' = "run" /\ agg' = "run"
   /\ drawn' = [s \in 0..MaxInst |-> 0] /\ closed' = [s \in 0..MaxInst |-> FALSE]
@@ -62,9 +65,14 @@ T_Conf ==
   /\ aw' = [toWait |-> 4, started |-> -1, awaited |-> 0, closed |-> FALSE]
   /\ poolRet' = "none"
   /\ badUse' = FALSE /\ ooaSeen' = FALSE /\ finSeen' = FALSE
-  /\ tokT' = <<>> /\ tokR' = <<>> /\ sparts' = Ev.sparts /\ explicit' = Ev.explicit
+  /\ tokT' = <<>> /\ tokR' = <<>> /\ sparts' = DescParts(Ev.sdesc, 1) /\ nlo' = CountLo(Ev.sdesc)
+  /\ explicit' = Ev.explicit
   /\ sidOf' = [i \in Inst |-> -1]
-  /\ UNCHANGED bad
+  \* what the real schedules report before their start is what the configured profiles denote
+  /\ bad' = bad \cup Flag(Ev.n_impl >= CountLo(Ev.sdesc) /\ Ev.n_impl <= CountHi(Ev.sdesc), "StartupLeftIsNotTheProfilesCount")
+                \cup Flag(IF HasUnknown(Ev.rdesc)
+                          THEN Ev.t = -1 /\ Ev.tmin >= CountLo(Ev.rdesc) /\ Ev.tmin <= CountHi(Ev.rdesc)
+                          ELSE Ev.t >= CountLo(Ev.rdesc) /\ Ev.t <= CountHi(Ev.rdesc), "RpsLeftIsNotTheProfilesCount")
 
 Running == poolRet = "none"
 
@@ -73,17 +81,18 @@ T_SNext ==
   /\ Ev.ev = "snext" /\ Running /\ spc = "draw"
   /\ IF Ev.ok
      THEN /\ sk < N                          \* S_Draw: a token is left
-          /\ sk' = sk + 1 /\ spc' = spc
+          /\ sk' = sk + 1 /\ spc' = spc /\ cfg' = cfg
           /\ tokT' = Append(tokT, Ev.t) /\ tokR' = Append(tokR, Ev.rt)
           /\ bad' = bad \cup Flag(tokT = <<>> \/ Leq(tokT[Len(tokT)], Ev.t), "StartupTokensMonotone")
                         \cup Flag(Ev.n = 0, "StartupTokenBeforeStart")
-     ELSE /\ sk = N                          \* S_Draw: the profile is exhausted, the starter returns
-          /\ sk' = sk /\ spc' = "done"
+     ELSE /\ sk >= nlo /\ sk <= N              \* S_Draw: the profile is exhausted, the starter returns;
+          /\ sk' = sk /\ spc' = "done"          \* the count is one the profile admits (nlo..N, see StartupMath)
+          /\ cfg' = [cfg EXCEPT !.startup = [k \in 1..sk |-> 0]]
           /\ UNCHANGED <<tokT, tokR>>
           \* the tokens handed out are the startup profile's (ProfileMath, shared with C01)
           /\ bad' = bad \cup Flag(~explicit \/ PartsOK(sparts, 1, tokR, 1, <<>>, Sd), "StartupProfileInstants")
-  /\ UNCHANGED <<cfg, now, provVars, schedVars, created, ids, ctxVars, instVars, cntVars, awVars, ghostVars,
-                 sparts, explicit, sidOf>>
+  /\ UNCHANGED <<now, provVars, schedVars, created, ids, ctxVars, instVars, cntVars, awVars, ghostVars,
+                 sparts, nlo, explicit, sidOf>>
 
 \* gun factory + Bind: instance Ev.inst exists from now on (S_Create and I_New of Pool; the `go`
 \* statement itself is not observable, so the entries of different instances may be in any order)
@@ -98,7 +107,7 @@ T_Bind ==
                 \cup Flag(I > Len(tokT) \/ Geq(Ev.t, tokT[I]), "CreatedBeforeTokenInstant")
   /\ UNCHANGED <<cfg, now, provVars, schedVars, spc, sk, ctxVars, held, tok, why,
                  request, response, instFinish, fired, discarded, awVars, ghostVars,
-                 tokT, tokR, sparts, explicit, sidOf>>
+                 tokT, tokR, sparts, nlo, explicit, sidOf>>
 
 SidOK == /\ IF cfg.per THEN Ev.sid >= 1 ELSE Ev.sid = 0
          /\ sidOf[I] \in {-1, Ev.sid}
@@ -109,49 +118,49 @@ T_Left == /\ Ev.ev = "left" /\ Running /\ IsInst
           /\ I_CheckZ(I, Ev.n = 0)
           /\ Unknown \/ Ev.n = LeftOf(Sid(I))       \* known length: the exact number of tokens left
           /\ SidOK /\ SidSet
-          /\ UNCHANGED <<tokT, tokR, sparts, explicit, bad>>
+          /\ UNCHANGED <<tokT, tokR, sparts, nlo, explicit, bad>>
 
 T_Acq == /\ Ev.ev = "acq" /\ Running /\ IsInst
          /\ I_Acquire(I)
          /\ held'[I] = Ev.item
-         /\ UNCHANGED <<tokT, tokR, sparts, explicit, sidOf, bad>>
+         /\ UNCHANGED <<tokT, tokR, sparts, nlo, explicit, sidOf, bad>>
 
 T_Next == /\ Ev.ev = "next" /\ Running /\ IsInst
           /\ I_WaitOk(I, Ev.ok)
           /\ SidOK /\ SidSet
-          /\ UNCHANGED <<tokT, tokR, sparts, explicit, bad>>
+          /\ UNCHANGED <<tokT, tokR, sparts, nlo, explicit, bad>>
 
 T_ShootB == /\ Ev.ev = "shoot_b" /\ Running /\ IsInst
             /\ I_Fire(I)
             /\ held[I] = Ev.item /\ Ev.k = Ev.inst
-            /\ UNCHANGED <<tokT, tokR, sparts, explicit, sidOf, bad>>
+            /\ UNCHANGED <<tokT, tokR, sparts, nlo, explicit, sidOf, bad>>
 
 T_ShootE == /\ Ev.ev = "shoot_e" /\ Running /\ IsInst
             /\ I_ShootEnd(I)
             /\ held[I] = Ev.item /\ Ev.k = Ev.inst
-            /\ UNCHANGED <<tokT, tokR, sparts, explicit, sidOf, bad>>
+            /\ UNCHANGED <<tokT, tokR, sparts, nlo, explicit, sidOf, bad>>
 
 \* the aggregator received a sample tagged "discarded": it is the discard branch of the loop
 T_Discard == /\ Ev.ev = "discard" /\ Running /\ IsInst
              /\ I_Discard(I)
              /\ bad' = bad \cup Flag(Ev.n = 777, "DiscardedSampleNetCode")
-             /\ UNCHANGED <<tokT, tokR, sparts, explicit, sidOf>>
+             /\ UNCHANGED <<tokT, tokR, sparts, nlo, explicit, sidOf>>
 
 \* an ordinary sample: reported by the gun during its shot
 T_Rep == /\ Ev.ev = "rep" /\ Running /\ IsInst
          /\ ipc[I] = "shooting"
-         /\ UNCHANGED <<vars, tokT, tokR, sparts, explicit, sidOf, bad>>
+         /\ UNCHANGED <<vars, tokT, tokR, sparts, nlo, explicit, sidOf, bad>>
 
 T_Rel == /\ Ev.ev = "rel" /\ Running /\ IsInst
          /\ I_Release(I)
          /\ held[I] = Ev.item
-         /\ UNCHANGED <<tokT, tokR, sparts, explicit, sidOf, bad>>
+         /\ UNCHANGED <<tokT, tokR, sparts, nlo, explicit, sidOf, bad>>
 
 \* the gun is closed after instance.Run returned, on the instance's goroutine
 T_Close == /\ Ev.ev = "close" /\ Running /\ IsInst
            /\ I_Exit(I)
            /\ Ev.k = Ev.inst
-           /\ UNCHANGED <<tokT, tokR, sparts, explicit, sidOf, bad>>
+           /\ UNCHANGED <<tokT, tokR, sparts, nlo, explicit, sidOf, bad>>
 
 \* Engine.Run and Engine.Wait returned; Metrics read
 T_End ==
@@ -161,7 +170,7 @@ T_End ==
                 \cup Flag(Ev.request = request /\ Ev.response = response, "MetricsRequestResponse")
                 \cup Flag(Ev.inst_start = instStart /\ Ev.inst_finish = instFinish, "MetricsInstances")
   /\ UNCHANGED <<cfg, now, provVars, schedVars, startVars, ctxVars, instVars, cntVars,
-                 runRes, provCh, aggCh, startCh, aw, ghostVars, tokT, tokR, sparts, explicit, sidOf>>
+                 runRes, provCh, aggCh, startCh, aw, ghostVars, tokT, tokR, sparts, nlo, explicit, sidOf>>
 
 TNext == /\ l <= Len(Trace)
          /\ l' = l + 1
